@@ -324,7 +324,7 @@ def work(payload, skip, report):
         i = 0
         for d in depths:
             for shape in ("chain", "literal", "literal_pf", "default_tower", "pf_test", "ifeq_left", "switch_subject", "expr_arg",
-                          "lc_arg", "named_value", "second_positional", "ifexpr_test"):
+                          "lc_arg", "named_value", "second_positional", "ifexpr_test", "arg_key"):
                 case = {"tower": shape, "depth": d}
                 if i in skip:
                     acc.violation("returns_in_time", case, "hang", "returns")
@@ -360,6 +360,11 @@ def work(payload, skip, report):
                     ctx.add_page("Template:a", 10, "[{{{1|}}}]")
                     type(ctx).get_page.cache_clear()
                     text, want = "{{a|1=" * d + "x" + "}}" * d, "[" * d + "x" + "]" * d
+                elif shape == "arg_key":
+                    # the same template nested in the KEY of its own named argument: acyclic (keys belong to the caller's frame)
+                    ctx.add_page("Template:nk", 10, "k")
+                    type(ctx).get_page.cache_clear()
+                    text, want = "{{nk|" * d + "z" + "=v}}" * d, "k"
                 elif shape == "second_positional":
                     ctx.add_page("Template:b", 10, "[{{{2|}}}]")
                     type(ctx).get_page.cache_clear()
@@ -375,6 +380,8 @@ def work(payload, skip, report):
                     acc.violation("no_exception", case, type(e).__name__, "returns a string")
                     continue
                 msgs = [m["msg"] for m in ctx.errors + ctx.warnings]
+                if any("loop" in m.lower() for m in msgs) and not any("too deep" in m for m in msgs):
+                    acc.violation("acyclic_tower_no_loop_message", case, msgs[:2], "no template loop is reported for nesting without a cycle")
                 if ERR in got:
                     if not any("too deep" in m or "loop" in m.lower() for m in msgs):
                         acc.violation("depth_records_message", case, msgs[:2], "an error/warning recorded")
